@@ -520,3 +520,109 @@ def check_C10(tier):
     rep.cov["states"] = max(rep.cov["states"], 1)
     rep.cov["transitions"] = max(rep.cov["transitions"], 1)
     return rep.finish()
+
+
+# ------------------------------------------------------------------- C08 / C19
+
+def _padd_replays(rep, rng, scenarios, per_scenario, which_choices, tag):
+    import padd as PA
+    batch = PA.Batch()
+    for (N, K, fs, die) in scenarios:
+        outs = PA.model_check(rep, N, K, fs, die, liveness=(N * K <= 12), outcomes=True, tag="%s%d%d%d" % (tag, N, K, fs))
+        if not outs:
+            continue
+        pick = outs if len(outs) <= per_scenario else rng.sample(outs, per_scenario)
+        for o in pick:
+            which = rng.choice(which_choices)
+            if not PA.replay_outcome(rep, N, K, fs, die, o, rng, which, batch):
+                return batch, False
+        rep.sample({"scenario": {"N": N, "K": K, "fault_set": fs, "die": die}, "terminal_outcomes": len(outs),
+                    "replayed": len(pick), "example": pick[0]}, limit=8)
+    return batch, True
+
+
+def check_C08(tier):
+    import padd as PA
+    rep = Report("C08", tier)
+    rng = _rng("C08")
+    quick = tier == "quick"
+    all3 = {"cms", "hh", "hll"}
+    combos = [all3, all3, {"cms"}, {"hll"}, {"hh"}, {"cms", "hll"}, {"hh", "hll"}, {"cms", "hh"}]
+    if quick:
+        scen = [(1, 4, 0, None), (2, 4, 0, None), (3, 4, 0, None), (4, 5, 0, None)]
+        per = 6
+    else:
+        scen = [(1, 5, 0, None), (2, 4, 0, None), (2, 6, 0, None), (3, 5, 0, None), (4, 6, 0, None), (3, 4, 1, None)]
+        per = 60
+    # real spawned run started first? (no: it must not overlap the in-process runs that patch helpers)
+    batch, ok = _padd_replays(rep, rng, scen, per, combos, "c08")
+    # merge-tree shape for every worker count 1..9 (odd counts carry a sketch over)
+    if ok:
+        for N in ([5, 7, 9] if quick else [5, 6, 7, 8, 9]):
+            o = {"assign": [(i % N) + 1 for i in range(N)] + list(range(1, N + 1)), "st": "returned",
+                 "nrec": sum(range(1, N + 1)), "bag": list(range(1, N + 1)), "part": []}
+            if not PA.replay_outcome(rep, N, N, 0, None, o, rng, {"cms", "hll"}, PA.Batch() if N > 4 else batch):
+                ok = False
+                break
+    # code -> spec: real spawned processes; items given as a generator (documented usage)
+    if ok:
+        runs = [PA.real_run(2, 5, 0, None, rng, {"cms", "hll"}, generator=True)]
+        if not quick:
+            runs += [PA.real_run(n, 6, fs, None, rng, w, generator=g)
+                     for n, fs, w, g in ((1, 0, {"hll"}, False), (3, 1, all3, True), (5, 0, {"cms", "hh"}, False))]
+        for i, run in enumerate(runs):
+            if not PA.validate_real(rep, run, batch, "c08real%d" % i):
+                ok = False
+                break
+            rep.sample({"real_run": {k: run[k] for k in ("N", "K", "outcome", "generator", "wall")},
+                        "per_pid": {str(k): v for k, v in run["per_pid"].items()}}, limit=10)
+    if ok:
+        batch.validate(rep, "c08sk")
+    rep.cov["exhaustive"] = True
+    rep.cov["rule"] = ("TLC: every schedule of the named scenarios (safety + termination under weak fairness); each distinct "
+                       "dequeue assignment (sampled per scenario) replayed against the real worker/merge code in-process; returned "
+                       "sketches validated by the sketch trace specs against the whole stream; real spawned runs validated against "
+                       "the specification under their recorded assignment")
+    rep.cov["distinct_nontrivial"] = rep.cov["states"]
+    rep.assumptions += ["in-process runs replace multiprocessing by a deterministic thread scheduler (fakemp); its fidelity is "
+                        "checked by the real spawned runs", "queue is FIFO: the dequeue order of items is their put order"]
+    return rep.finish()
+
+
+def check_C19(tier):
+    import padd as PA
+    rep = Report("C19", tier)
+    rng = _rng("C19")
+    quick = tier == "quick"
+    all3 = {"cms", "hh", "hll"}
+    combos = [all3, {"cms", "hll"}, {"hh"}, {"cms"}]
+    if quick:
+        scen = [(2, 4, 1, None), (1, 3, 3, None), (3, 4, 2, None), (2, 4, 0, (1, 1)), (2, 4, 1, (2, 1)), (3, 4, 0, (1, 2))]
+        per = 4
+    else:
+        scen = [(n, k, fs, None) for n in (1, 2, 3) for k in (3, 5) for fs in (1, 2, 3)] + \
+               [(n, 4, fs, d) for n in (2, 3) for fs in (0, 1) for d in ((1, 1), (1, 2), (2, 1))]
+        per = 12
+    batch, ok = _padd_replays(rep, rng, scen, per, combos, "c19")
+    if ok:
+        runs = [PA.real_run(2, 5, 0, 3, rng, {"hll"})]                    # a worker calls os._exit(1) on item 3
+        if not quick:
+            runs += [PA.real_run(3, 6, 0, 1, rng, {"cms", "hll"}), PA.real_run(2, 5, 1, None, rng, {"cms", "hll"})]
+        for i, run in enumerate(runs):
+            if run["wall"] > 600:
+                rep.violation("parallel_add needed %.0f s to terminate" % run["wall"], {"kind": "padd_real", "signature": {"padd_real": "slow"}})
+                ok = False
+                break
+            if not PA.validate_real(rep, run, batch, "c19real%d" % i):
+                ok = False
+                break
+            rep.sample({"real_run": {k: run[k] for k in ("N", "K", "die_item", "outcome", "exc", "wall")}}, limit=10)
+    if ok:
+        batch.validate(rep, "c19sk")
+    rep.cov["exhaustive"] = True
+    rep.cov["rule"] = ("TLC: all schedules of scenarios with raising callbacks (before/after touching the sketches) and one worker "
+                       "dying on its k-th item, safety + termination; terminal outcomes replayed against the real code; real spawned "
+                       "run with os._exit in a worker")
+    rep.cov["distinct_nontrivial"] = rep.cov["states"]
+    rep.assumptions += ["in-process death = an uncaught BaseException in the worker (exit code 1)"]
+    return rep.finish()
